@@ -112,9 +112,9 @@ theorem logData_plainC (c : Cfg) (d : Bytes) (s : S) (he : s.err = none) (hm : s
   simp only at he hm
   subst he hm
   cases d with
-  | nil => simp [logData, guard, log_g0]
+  | nil => simp [logData, mainCopy_id, guard, log_g0]
   | cons x xs =>
-    simp only [logData, guard, log_g0, log_g1, log_g2, log_g5, log_g6, log_g7, log_g8, toggle_g0, evOn, tr,
+    simp only [logData, mainCopy_id, guard, log_g0, log_g1, log_g2, log_g5, log_g6, log_g7, log_g8, toggle_g0, evOn, tr,
       emit, setP]
     cases hasLog <;> cases isStdout <;> cases outEv <;> cases errEv <;> cases strip <;> simp
 
@@ -125,9 +125,9 @@ theorem logData_capC (c : Cfg) (d : Bytes) (s : S) (he : s.err = none) (hm : s.p
   simp only at he hm hc
   subst he hm
   cases d with
-  | nil => simp [logData, guard, log_g0]
+  | nil => simp [logData, mainCopy_id, guard, log_g0]
   | cons x xs =>
-    simp only [logData, guard, log_g0, log_g1, log_g2, log_g5, log_g6, log_g7, log_g8, toggle_g0, evOn, tr,
+    simp only [logData, mainCopy_id, guard, log_g0, log_g1, log_g2, log_g5, log_g6, log_g7, log_g8, toggle_g0, evOn, tr,
       emit, setP]
     cases strip <;> simp [hc]
 
